@@ -1294,10 +1294,10 @@ impl<'t> Captures<'t> {
                 end: span.end,
             }),
             CapturesImpl::Fancy { text, ref saves } => {
-                let slot = i * 2;
-                if slot >= saves.len() {
+                if i >= saves.len() / 2 {
                     return None;
                 }
+                let slot = i * 2;
                 let lo = saves[slot];
                 if lo == usize::MAX {
                     return None;
